@@ -46,6 +46,19 @@ def fuzz(seconds_t, **kw):
     return d
 
 
+def stress(cases_q, cases_t, **kw):
+    """Real-time stress stage: few small cases with instant job bodies, each executed very many times."""
+    d = dict(name="stress", module="sched", go=GO, test="TestStress", shards=16,
+             checks={"quick": cases_q, "thorough": cases_t},
+             args_tier={"quick": ["-stress=1200"], "thorough": ["-stress=6000"]},
+             timeout={"quick": 900, "thorough": 7200})
+    d.update(kw)
+    return d
+
+
+STRESS_RULE = ("; stress stage: small cases (<=7 jobs, N<=4, instant bodies, failures / Goexit / cancellation as drawn) each executed 1200 (thorough 6000) times in real time under the full oracle: "
+               "rare windows between the scheduler's goroutines are reached by repetition, not by case variety")
+
 PROPS = {}
 
 PROPS["C01"] = dict(
@@ -102,6 +115,10 @@ def _add_bin(pid, q=1, t=20):
     PROPS[pid]["stages"].append(ebin(q, t))
     PROPS[pid]["rule"] += "; E-BIN stage: generated directives (flows/parallels in all spellings) processed by the freshly built cff binary, compiled and executed under rapid-drawn scenarios, same oracle evaluated on the event log of the generated code"
 
+
+for _p in ["C01", "C05", "C06", "C07"]:
+    PROPS[_p]["stages"].append(stress(8, 200))
+    PROPS[_p]["rule"] += STRESS_RULE
 
 for _p in ["C01", "C03", "C05", "C06", "C07", "C08", "C09"]:
     _add_bin(_p)
